@@ -76,6 +76,10 @@ def check(tier):
         mc = [vlib.model_check(work, "MC_Leak", "MC_Leak.cfg")]
         for c in ["MC_Leak_bug1.cfg", "MC_Leak_bug2.cfg", "MC_Leak_vartime.cfg"]:
             mc.append(vlib.model_check(work, "MC_Leak", c, expect_violation=True))
+        asm = vlib.asm_model(work, "MC_Asm.cfg")
+        mc.append(asm)
+        if asm.get("failed") or "amd64_error" in asm["extracted"]:
+            print("NOTE: assembly item: %s" % (asm.get("failed") or asm["extracted"].get("amd64_error")))
         builds = [("default", None), ("purego", "purego")]
         shapes = 4 if tier == "quick" else 24
         variants = 3 if tier == "quick" else 5
@@ -132,7 +136,7 @@ def check(tier):
         }
         vlib.write_evidence(PROP, tier, cov, time.time() - t0, len(own), [
             "Go-source-level observation model: compiler-introduced branches, variable-latency multipliers and caches are outside the property as stated",
-            "the assembly (fe_amd64.s) is opaque to the instrumenter: it is covered by the purego build's portable code and by the Asm model where present",
+            "the assembly is opaque to the instrumenter; it is covered by the Asm machine (spec/Asm.tla): the extracted routines contain no jump, every memory operand is argument pointer + constant (checked while TLC executes them), and there is no division",
             "declassified: the uninitialised-Point guard's short-circuit; exempt: VarTime operations, Scalar.SetCanonicalBytes, accept/reject outcomes of setters",
             "TLC, SANY; golang.org/x/tools/go/packages for the typed AST"])
         if own:
